@@ -71,7 +71,7 @@ struct Edge {
 
 #[derive(Clone, Debug, Serialize, Deserialize, PartialEq, Eq)]
 struct WeakE {
-    /// target allocation; `None` = the target has been dropped (dangling weak; DAG kinds only)
+    /// target allocation; `None` = the target has been dropped (dangling weak)
     to: Option<usize>,
     pos: WPos,
 }
@@ -200,8 +200,9 @@ impl<'a> Sim<'a> {
         let rec = self.c.kind.is_rec();
         match w.to {
             None => {
-                if rec {
-                    return Err("dangling link in a recursive graph is not generated");
+                if rec && w.pos == WPos::Up {
+                    // (an Option field: `null` reads back as None, not as Some(dangling))
+                    return Err("dangling link in an Option field is not generated");
                 }
                 self.m.occ.push(('W', -1));
                 self.m.dangling += 1;
@@ -1002,8 +1003,11 @@ macro_rules! rec_family {
                     }
                 }
                 for w in &d.weak {
-                    let t = w.to.expect("harness: no dangling links in recursive graphs");
-                    let wk = $K::from(cells[t].as_ref().expect("harness: cell allocated"));
+                    let wk = match w.to {
+                        Some(t) => $K::from(cells[t].as_ref().expect("harness: cell allocated")),
+                        // a dangling link: its target has been dropped
+                        None => $K::from(&$S($P::new(<$Cell<Option<Node>> as Slot<Node>>::empty()))),
+                    };
                     match w.pos {
                         WPos::Up => n.up = Some(wk),
                         WPos::Map => n.pre.push(wk),
@@ -1267,7 +1271,8 @@ fn normalise(mut c: Case) -> Case {
         }
         if rec {
             d.leaf = None;
-            d.weak.retain(|w| w.to.is_some());
+            // (a dangling link in the Option field would read back as None: not generated)
+            d.weak.retain(|w| w.to.is_some() || w.pos != WPos::Up);
         } else if let Some(l) = d.leaf {
             if l >= c.leaves.len() {
                 d.leaf = None;
@@ -1483,7 +1488,7 @@ fn assemble(kind: Kind, max_alloc: usize, r: RawGraph) -> Case {
         } else {
             WPos::Map
         };
-        let to = if dangling && !kind.is_rec() {
+        let to = if dangling && (!kind.is_rec() || pos != WPos::Up) {
             None
         } else if ancestor && kind.is_rec() {
             // self or an ancestor along first parents
@@ -1709,7 +1714,7 @@ impl Property for C14 {
     fn assumptions() -> Vec<String> {
         vec![
             "the strong occurrence of a node is serialised (completely) before its RcWeakAnchor/ArcWeakAnchor occurrences (anchors.rs module doc); RcRecursion/ArcRecursion links point to nodes whose strong occurrence has at least started".into(),
-            "weak references to targets that are alive but not part of the serialised graph, dangling RcRecursion/ArcRecursion links and Option<weak wrapper> fields are not generated (their reading is not documented)".into(),
+            "weak references to targets that are alive but not part of the serialised graph, Option<weak wrapper> fields holding a dangling link are not generated (`null` reads back as None)".into(),
             "anchor names a1, a2, ... as documented in ser.rs (or those of the custom generator); compact_list_indent, empty_as_braces = false, indent_step = 1 and non-default folding thresholds are not generated (they break documents that contain no anchors at all: C13's domain); default deserializer Options".into(),
             "removing the definition of an anchor that no alias refers to does not change the meaning of a YAML text; the mixed mirror (plain nodes, wrapper leaves) is not checked on such texts".into(),
             "the plain mirror is only checked for DAG kinds (a cyclic graph has no finite tree expansion) and expansions of <= 1500 nodes".into(),
